@@ -67,7 +67,41 @@ EXPLANATION = (
     "bare X no hierarchy pass sees, is recorded as a note in the evidence and "
     "not judged: it is true of today's tree (`def f(x): return Stack() if x "
     "else [object()]` with `class Stack(list)` is emitted as Union[Stack, "
-    "list] and re-optimised to list).")
+    "list] and re-optimised to list).  Shapes: the rules on Optimize "
+    "(R11.2/4/5/6/7) read it in a normal form produced by a semantics-"
+    "preserving rewriting (rules/_util_c11c01.py): calls to module-local "
+    "helper functions in statement position (`x = H(..)`, `return H(..)`, "
+    "`H(..)`, also as an arm of a conditional expression, which becomes an "
+    "`if`) are inlined with the parameters bound in argument order, the "
+    "helper's locals renamed apart and its returns turned into the "
+    "assignment of the call statement, and a loop over a literal tuple - "
+    "also the *args tuple of an inlined helper, `for v in passes: node = "
+    "node.Visit(v)` - is unrolled, so a table-driven pass list is the same "
+    "sequence of pass applications as one Visit statement per pass and a "
+    "flag guard inside a helper is a guard on the flag the helper was "
+    "handed (a constant or another flag in its place is seen as such).  A "
+    "helper call in any other position (inside a larger expression, in a "
+    "condition), a generator / recursive / decorated helper or a return "
+    "inside a loop of a helper is an analysis error: a pass applied in a "
+    "helper the rule cannot see into would be invisible.  Methods "
+    "(VisitUnionType, __init__ storing the hierarchy, _Simplify) are "
+    "resolved through module-local base classes (a private base / mixin); "
+    "a foreign base listed before a local one is an analysis error.  "
+    "R11.1 accepts the Optimize call of io.generate_pyi_ast in a "
+    "module-local helper it calls (the instance is named after "
+    "generate_pyi_ast either way).  R11.3 identifies the Any arm of "
+    "JoinTypes by path condition, not by position: the returns whose guards "
+    "imply the `any(isinstance(t, AnythingType) for t in <members>)` test "
+    "(as an if-body, or as the fall-through after `if not any(..): return "
+    "..`, through `not` / `and` / `or`) must return Any or Union[Any, "
+    "None]; returns whose guards imply its negation are outside the arm; a "
+    "return reached BEFORE the test is accepted only for exactly one member "
+    "(`len(m) == 1` -> that member) or none (`not m`), anything else is an "
+    "analysis error; a path that falls off the end of JoinTypes is an "
+    "analysis error.  R11.6 also accepts the counter of the subset filter "
+    "built in one expression, `Counter(n for t in <members> [if ..] for n in "
+    "hierarchy.<closure>(str(t)))`, which counts exactly what `c += "
+    "Counter(closure)` per member does.")
 ASSUMPTIONS = [
     "the classification of optimize.py's visitors into lossless / "
     "meaning-changing follows their docstrings and the `lossy`, `use_abcs`, "
@@ -84,6 +118,11 @@ ASSUMPTIONS = [
     "CREATES_ANY_CONTAINER (hand classification of the passes that can leave a "
     "generic type with only-Any parameters) is shared by R11.4 and R11.7; the "
     "input of Optimize counts as such a producer",
+    "constructing a visitor has no effect the rules care about: when a loop "
+    "over a literal tuple of pass objects is unrolled, each constructor call "
+    "is written at the place where the pass is applied (the order of the "
+    "APPLICATIONS, their guards and their constructor arguments are kept "
+    "exactly)",
 ]
 # rules/c11_latch.py (R11.20)
 EXPLANATION += (
@@ -237,13 +276,19 @@ def r11_1(ctx):
     calls = _optimize_calls(mod)
     if rel in (IO, PYTDFN, PRINTER) and not calls:
       raise AnalysisError(f"{rel}: optimize.Optimize call not found")
-    if rel in anchored and not any(
-        _qualname(mod, mod.enclosing_function(c)) == anchored[rel]
-        for c in calls):
-      raise AnalysisError(f"{rel}: {anchored[rel]} no longer calls Optimize")
+    via_helper = set()
+    if rel in anchored:
+      # the anchor calls Optimize itself or through module-local helpers; such
+      # a call site is named after the anchor (its role), not after the helper
+      reach = _u.reachable_functions(mod, mod.func(anchored[rel]))
+      via_helper = {id(c) for c in calls
+                    if any(mod.enclosing_function(c) is f for f in reach)}
+      if not via_helper:
+        raise AnalysisError(f"{rel}: {anchored[rel]} no longer calls Optimize")
     seen = {}
     for c in sorted(calls, key=lambda c: c.lineno):
-      q = _qualname(mod, mod.enclosing_function(c))
+      q = anchored[rel] if id(c) in via_helper else \
+          _qualname(mod, mod.enclosing_function(c))
       n = seen.get(q, 0)
       seen[q] = n + 1
       construct = f"{q}:Optimize-settings" + ("" if n == 0 else f"#{n + 1}")
@@ -1507,8 +1552,8 @@ VARIANTS = [
      "old": "  node = node.Visit(CombineContainers())\n  node = node.Visit(SimplifyContainers())\n  if deps:",
      "new": "  node = node.Visit(CombineContainers())\n  drop_any_params = SimplifyContainers()\n  node = node.Visit(drop_any_params)\n  if deps:"},
     {"name": "twin-hierarchy-pass-object-built-early", "rule": "R11.7", "expect": "silent",
-     "edits": [(OPT, "    node = node.Visit(SimplifyUnionsWithSuperclasses(hierarchy))",
-                "    absorb = SimplifyUnionsWithSuperclasses(hierarchy)\n    node = node.Visit(absorb)")]},
+     "edits": [(OPT, "    hierarchy = SuperClassHierarchy(superclasses)\n    node = node.Visit(SimplifyUnionsWithSuperclasses(hierarchy))",
+                "    hierarchy = SuperClassHierarchy(superclasses)\n    absorb = SimplifyUnionsWithSuperclasses(hierarchy)\n    node = node.Visit(absorb)")]},
     # second batch of behaviour-preserving refactorings: the refactored shape is a
     # must-silent twin, refactoring + defect must fire (benign/<id>/*.diff)
     {"name": "twin-benign-C11-r1-jointypes-early-returns", "rule": "R11.3", "patch": "benign/C11-r1/patch.diff", "expect": "silent"},
